@@ -36,6 +36,10 @@ ops.FAMILIES["convert2"] = ["tojson", "validityerror", "deep_copy"]
 def gen_case(rng, tier, index):
     cfg = gen.Cfg(tier)
     fam = rng.choice(FAMS)
+    if fam in ("sort", "pad", "structure", "reduce", "combinations"):
+        # an axis can address the characters *inside* a string (a string is a list level of its own in this
+        # library); what happens there is outside the statement, which speaks of strings as leaves
+        cfg.strings = False
     if fam == "sort":          # the library sorts numbers, booleans and strings only (C06's domain)
         cfg.dtypes = ["bool"] + gen.INT_DTYPES + gen.FLOAT_DTYPES
     elif fam == "convert2":    # JSON has no datetime (C15's domain)
